@@ -127,4 +127,12 @@ Proof.
     split; [|split; [exact L1|split; [exact L2|split; [exact L3|split; [exact L4|discriminate]]]]].
     intros n. unfold saved_entries. cbn [tgt_id]. rewrite lookup_upsert_eq. cbn [file_entries]. rewrite Hlive. apply L1.
 Qed.
+(* flat XML export: the children of meta, settings, styles, content, in that order (well-formedness itself is lxml's) *)
+Lemma flat_kids_order : forall (c : container),
+  flat_kids xml bytes kid par kids c =
+    (match lookup META (live _ c) with Some b => kids (par b) | None => [] end)
+    ++ (match lookup SETTINGS (live _ c) with Some b => kids (par b) | None => [] end)
+    ++ (match lookup STYLES (live _ c) with Some b => kids (par b) | None => [] end)
+    ++ (match lookup CONTENT (live _ c) with Some b => kids (par b) | None => [] end).
+Proof. intros. unfold flat_kids. cbn [flat_map]. rewrite app_nil_r. reflexivity. Qed.
 End S3.
